@@ -155,9 +155,9 @@ def timing_bounds(L, rep, tier, seed):
             ctx.event('witness', 'returns-request')
             return res
         # None: because of a token?  (the last q_pop returned kind 1)
-        pops = [e for e in evs if e.kind == 'q_pop']
-        last = pops[-1]
-        token = z3.And(last.res['nonempty'], last.res['kind'] == 1)
+        pops = [e for e in evs if e.kind in ('q_pop', 'q_peek') and 'kind' in e.res]
+        # the last look at the queue saw a token (however the code looks: removing or peeking)
+        token = z3.And(pops[-1].res['nonempty'], pops[-1].res['kind'] == 1) if pops else z3.BoolVal(False)
         popped_after_last_wait = True
         ctx.event('witness', 'returns-nothing')
         ctx.event('sample', {'ops': [e.kind for e in evs], 'waits': waits})
